@@ -27,6 +27,13 @@ TRIAGE = {
  "lane_alpide_frame_analyzer.rs:40": ("dead", "constant not used"),
  "lib.rs:137": ("equivalent", "reader buffer size"),
  "lib.rs:221": ("equivalent", "both arms end the batch the same way"),
+ "lib.rs:224": ("equivalent", "both arms end the batch the same way"),
+ "rdh_cru.rs:331": ("equivalent", "reads the same bytes from a longer slice"),
+ "lane_alpide_frame_analyzer.rs:126": ("equivalent", "the flag is already set inside a chip (a region header follows a chip header)"),
+ "test_util.rs": ("dead", "test utility (MockConfig), not part of the CLI"),
+ "rdh_stats.rs:181": ("dead", "`allow(dead_code)`"),
+ "alpide_word.rs:134": ("dead", "constant not used"),
+ "cdw.rs:27": ("GAP", "lowest bit of the CDW user field ignored -> the C02 entry for E81 now flips one bit (lowest / highest / any) of the user field"),
  "lib.rs:255": ("dead", "spawn_vec_reader is not used by the CLI"),
  "lib.rs:263": ("dead", "spawn_vec_reader is not used by the CLI"),
  "lib.rs:267": ("dead", "spawn_vec_reader is not used by the CLI"),
